@@ -13,6 +13,7 @@ import (
 	"strings"
 	"testing"
 
+	"github.com/whatap/golib/config"
 	"github.com/whatap/golib/config/conffile"
 	"pgregory.net/rapid"
 	"verif/pbt"
@@ -30,6 +31,8 @@ type WBCase struct {
 	Exclude []string  `json:"exclude,omitempty"`
 	Sets    [][]SetKV `json:"sets"` // one SetValues call per entry
 	Def     Defaults  `json:"def"`
+	// Observers registered on the configuration: a change made through write-back is a change of the file like any other
+	Observers int `json:"observers,omitempty"`
 }
 
 // effectiveKey is the meaning of the options: excluded keys are not written, the
@@ -124,6 +127,7 @@ func drawWriteBack(t *rapid.T) WBCase {
 		}
 	}
 	c.Def = genDefaults().Draw(t, "def")
+	c.Observers = rapid.SampledFrom([]int{0, 0, 1, 2}).Draw(t, "observers")
 	return c
 }
 
@@ -270,8 +274,22 @@ func runWriteBack(c WBCase) *pbt.Result {
 		opts = append(opts, conffile.WithExcludeKeys(c.Exclude))
 		classes["option:exclude"] = true
 	}
-	fc := newConf(home, nil, opts...)
+	var ob *config.ConfigObserver
+	var observers []*recObserver
+	if c.Observers > 0 {
+		ob = config.NewConfigObserver()
+		for i := 0; i < c.Observers; i++ {
+			o := &recObserver{name: fmt.Sprintf("obs%d", i)}
+			observers = append(observers, o)
+			ob.Add(o.name, o)
+		}
+		classes["observers-registered"] = true
+	}
+	fc := newConf(home, ob, opts...)
 	defer fc.Destroy()
+	for _, o := range observers {
+		o.calls = 0
+	}
 
 	commentsWithEq := c.File.has("comment", func(l Line) bool { return strings.Contains(l.Text, "=") })
 	if c.File.has("comment", nil) {
@@ -305,6 +323,11 @@ func runWriteBack(c WBCase) *pbt.Result {
 			panic(err)
 		}
 		before := string(beforeB)
+		stBefore, err := os.Stat(path)
+		if err != nil {
+			panic(err)
+		}
+		mtimeBefore := stBefore.ModTime().UnixNano()
 		oldMap := map[string]string{}
 		if items, err := refParse(before); err == nil {
 			oldMap = itemsMap(items)
@@ -336,14 +359,45 @@ func runWriteBack(c WBCase) *pbt.Result {
 			}
 			wrote = true
 		}
-		// the configuration object itself reads the written values back unchanged
-		clock += 1_000_000_007
-		if err := setMtime(path, clock); err != nil {
+		// the configuration object itself reads the written values back unchanged. The file SetValues wrote carries
+		// the current time; only when the file system's clock granule made that equal to the previous modification
+		// time (two writes within one tick) the harness moves it on, as a later edit would.
+		stAfter, err := os.Stat(path)
+		if err != nil {
 			panic(err)
 		}
-		fc.ReloadNowForVerif()
+		if stAfter.ModTime().UnixNano() == mtimeBefore {
+			clock += 1_000_000_007
+			if err := setMtime(path, clock); err != nil {
+				panic(err)
+			}
+			classes["mtime-unchanged-by-write(moved on by the harness)"] = true
+		}
 		items, _ := refParse(after)
 		final := itemsMap(items)
+		for _, o := range observers {
+			o.expect = map[string]string{}
+			for k, v := range final {
+				o.expect[k] = v
+			}
+		}
+		fc.ReloadNowForVerif()
+		if after != before {
+			for _, o := range observers {
+				if o.bad != "" {
+					return pbt.Fail("after SetValues call %d and a reload: %s", i, o.bad)
+				}
+				if o.calls != 1 {
+					return pbt.Fail("SetValues call %d with %v changed the file, but after the next reload observer %s has been notified %d times (a change made through write-back is a change of the file)", i, set, o.name, o.calls)
+				}
+			}
+			if len(observers) > 0 {
+				classes["observer:notified-after-write-back"] = true
+			}
+		}
+		for _, o := range observers {
+			o.calls = 0
+		}
 		var keys []string
 		for k := range final {
 			keys = append(keys, k)
@@ -368,7 +422,7 @@ func runWriteBack(c WBCase) *pbt.Result {
 
 var writeBackSpec = pbt.Register(pbt.Spec[WBCase]{
 	Prop: "C18", Name: "write-back",
-	Rule:  "file of 0-10 lines (key lines with blanks around '=', raw or escaped values, empty values; comment lines with and without '=', indented, with trailing blanks; blank lines), options none|prefix|suffix|both and an exclusion list, 1-2 SetValues calls of 0-4 pairs (existing keys, new keys, keys already carrying the prefix, empty value = remove); after each call the file is read with the harness's own properties reader: key->value map == old ∪ new (empty = unset), comment/blank lines byte-identical and all surviving lines in their old order with new keys only appended, no key twice; then a reload must make every value of the file visible through all typed getters; non-trivial = at least one pair effectively written to a file that has comment lines",
+	Rule:  "file of 0-10 lines (key lines with blanks around '=', raw or escaped values, empty values; comment lines with and without '=', indented, with trailing blanks; blank lines), options none|prefix|suffix|both and an exclusion list, 1-2 SetValues calls of 0-4 pairs (existing keys, new keys, keys already carrying the prefix, empty value = remove); after each call the file is read with the harness's own properties reader: key->value map == old ∪ new (empty = unset), comment/blank lines byte-identical and all surviving lines in their old order with new keys only appended, no key twice; then a reload must notify each of 0-2 registered observers exactly once when the call changed the file (with the new values visible inside the callback) and make every value of the file visible through all typed getters; comment lines up to 140 000 bytes; non-trivial = at least one pair effectively written to a file that has comment lines",
 	Quick: 6000, Thorough: 600000,
 	Draw: drawWriteBack, Run: runWriteBack,
 })
